@@ -158,8 +158,12 @@ import s_treeprops
 def tree_plan(prop, quick, thorough, rule, assumptions=()):
     def run(tier, seed, out, drv):
         s_treeprops.tree_suite(prop, seed, quick if tier == 'quick' else thorough, out, drv, budget_s=120 if tier == 'quick' else 1500)
+        if prop == 'C14': s_treeprops.T.alias_suite(prop, seed, 50 if tier == 'quick' else 1200, out, drv, budget_s=40 if tier == 'quick' else 500)
         if prop in ('C13', 'C18'): s_treeprops.odd_inputs_suite(prop, out, drv)
         if prop == 'C12': s_treeprops.documenter_defaults_suite(out, drv)
+        if prop == 'C15':
+            import s_glob
+            s_glob.glob_suite(prop, seed, tier, out, drv)
         if prop in ('C13', 'C18', 'C15'):
             import s_cli
             s_cli.cli_suite(prop, seed, 25 if tier == 'quick' else 600, out, drv)
@@ -178,7 +182,9 @@ tree_plan('C13', 150, 4000, "random directory trees (depth<=3, mixed-case extens
           "auto-exclusion x prefixes x pattern sets x output locations (absolute, relative, nested in the input); non-trivial = at least 2 files written",
           TREE_ASSUME)
 tree_plan('C14', 150, 4000, "as C13 with the closure profile (pattern-excluded, auto-excluded and emptied sub-directories); the oracle resolves every "
-          "toctree entry of every real index.rst and walks reachability from the top index; non-trivial = at least 2 files written", TREE_ASSUME)
+          "toctree entry of every real index.rst and walks reachability from the top index; non-trivial = at least 2 files written; "
+          "alias suite: the same trees with followed links between their own directories (siblings and cousins, several links to one target, "
+          "never to an ancestor)", TREE_ASSUME)
 tree_plan('C15', 100, 2500, "random trees x pattern sets (bare names, trailing slash, *, **, absolute paths, negation, several patterns hitting adjacent "
           "siblings or every CMake file of a directory) x 4 listing orders each; non-trivial = patterns present and at least 2 files written", TREE_ASSUME)
 tree_plan('C12', 150, 4000, "random trees and lone files x prefixes x separators (. / :: -) x both extension options x custom header lists x input spelled "
@@ -324,12 +330,15 @@ import s_cmake
 
 def _c19_run(tier, seed, out, drv):
     s_cmake.cmake_suite(seed, 24 if tier == 'quick' else 264, out, drv, budget_s=150 if tier == 'quick' else 1500)
+    s_cmake.history_suite(seed, 12 if tier == 'quick' else 120, out, drv, budget_s=100 if tier == 'quick' else 1200)
 
 
 PLANS['C19'] = dict(run=_c19_run, replay=s_cmake.replay, replay_kind='cmake',
                     rule="real `cmake -P` runs of cminx_gen_rst with CMINX_EXECUTABLE bound to (a) an argv recorder — compared with the Lean genArgv, "
                          "(b) the working-tree CMinx — output tree byte-compared with a direct command-line run, (c) a failing child; inputs: lone "
                          "files, flat and nested directories, missing paths, syntax-error files; extra lists of 0-3 option groups (-p, -e, -s, "
-                         "--prefix); non-trivial = every run",
+                         "--prefix); histories: 3-6 calls from one build directory (one configure each, or all in one CMake run) with the settings file, "
+                         "the user file, the input's content or membership, the output or the call's arguments changed in between, each step compared "
+                         "with the same history on the command line; non-trivial = every run",
                     assumptions=["CMake's evaluation of the function body, list expansion and execute_process(COMMAND_ERROR_IS_FATAL ANY) are trusted; "
                                  "only list flattening is modelled", "argparse's abbreviation matching is not modelled"])
